@@ -67,16 +67,32 @@ def write_side(root, name, points, emb, split, T):
     return fs, files
 
 
-def harvest(results, names=("A", "B")):
+def harvest(results, names=("A", "B"), in_memory=False):
     """-> list of [pid, sid] over all yielded compact datasets (expanded through the pair indices)"""
     out = []
     spans = []
+    misnamed = []
     for res in results:
         data = res[0] if isinstance(res, tuple) else res
         pairs = np.asarray(data["Collocations/pairs"].values).astype(int)      # the NetCDF reader widens ints to floats (not judged)
         out += [[int(a), int(b)] for a, b in zip(data[names[0] + "/id"].values[pairs[0]], data[names[1] + "/id"].values[pairs[1]])]
         spans.append((str(data[names[0] + "/time"].values.min())[:19], str(data[names[0] + "/time"].values.max())[:19]))
+        # a yielded dataset announces the time span of the primary points it holds (output files are named by it)
+        said = (str(data.attrs.get("start_time"))[:19].replace(" ", "T"), str(data.attrs.get("end_time"))[:19].replace(" ", "T"))
+        if in_memory and said != spans[-1]:
+            misnamed.append({"announced": said, "holds": spans[-1]})
+    harvest.misnamed = misnamed
     return out, spans
+
+
+def name_check(out, names, held):
+    """An output file is named by the time span of the (primary points of the) collocations it holds."""
+    harvest.misnamed = []
+    for n_, h in zip(sorted(set(names)), held):
+        ti = out.get_info(n_).times
+        said = (ti[0].isoformat()[:19], ti[1].isoformat()[:19])
+        if said != h:
+            harvest.misnamed.append({"file": os.path.basename(n_), "holds": h})
 
 
 def one_run(case, row, conf, fakes=None, seed=0):
@@ -128,7 +144,7 @@ def one_run(case, row, conf, fakes=None, seed=0):
             try:
                 if out is None:
                     results = list(col.collocate_filesets([fa, fb], **kw))
-                    got, spans = harvest(results)
+                    got, spans = harvest(results, in_memory=True)
                 elif conf.get("via") == "search":
                     # Collocations.search: the documented front end (takes "your own collocator"; this one only records
                     # the names the real generator yields, which search() itself discards)
@@ -140,18 +156,24 @@ def one_run(case, row, conf, fakes=None, seed=0):
                                 yield name
                     out.search([fa, fb], collocator=Recording(), **kw)
                     datasets = [out.read(n) for n in sorted(set(names))]
-                    got, _ = harvest(datasets)
+                    got, held = harvest(datasets)
                     spans = [os.path.basename(n) for n in names]
+                    name_check(out, names, held)
                 else:
                     names = list(col.collocate_filesets([fa, fb], output=out, **kw))
                     datasets = [out.read(n) for n in sorted(set(names))]
-                    got, _ = harvest(datasets)
+                    got, held = harvest(datasets)
                     spans = [os.path.basename(n) for n in names]
+                    name_check(out, names, held)
             except NoFilesError:
                 # FileSet.find's documented way of saying "this fileset has no file in the period": accepted as
                 # "nothing to report" -- judged only against a non-empty expectation
                 got, spans, nofiles = [], [], True
         exp = sorted([a, b] for a, b, _, _ in E)
+        misnamed = [] if nofiles else list(getattr(harvest, "misnamed", []))
+        harvest.misnamed = []
+        if misnamed:
+            return {"got": sorted(got), "expected": exp, "events": world.log if world else [], "spans": spans, "misnamed": misnamed}
         if nofiles and bad is None:
             return {"got": [], "expected": exp, "events": world.log if world else [], "spans": [], "nofiles": True}
         if bad is not None:
@@ -168,6 +190,10 @@ def judge(col, case, row, conf, res, label):
     rep = {"abstract": {"N": N, "P": case["P"], "S": case["S"], "I": row[0], "k": row[1], "ws": row[2], "we": row[3]},
            "concrete": conf, "expected": res["expected"], "observed": res["got"]}
     got, exp = res["got"], res["expected"]
+    if res.get("misnamed"):
+        col.violation("%s-output-not-named-by-the-span-it-holds-%s" % (label, conf["bundle"] or "nobundle"),
+                      dict(rep, misnamed=res["misnamed"][:5]))
+        return
     if res.get("nofiles"):
         if exp:
             col.violation(label + "-NoFilesError-although-collocations-exist", rep)
